@@ -2,7 +2,7 @@
    All statements hold in every state reachable from any initial assignment of message counts to any number of
    threads under any scheduler (one step = one source line of _send that touches shared state).  A re-entrant send
    is a send by a fresh thread id running while its parent is parked at the write (see model/SendQ.v). *)
-From V Require Import lib.Base model.SendQ proofs.SendQP proofs.SendQTie gen.Gen_sendq.
+From V Require Import lib.Base model.SendQ proofs.SendQP proofs.SendQTerm proofs.SendQTie gen.Gen_sendq.
 
 Section C12.
 Variable totals : nat -> nat.
@@ -46,6 +46,19 @@ Print Assumptions c12_exactly_once_in_order.
 Print Assumptions c12_quiescent.
 Print Assumptions c12_no_blocking.
 Print Assumptions c12_will_retest.
+
+(* 6. termination under ANY scheduler, fair or unfair: with n sending threads, a potential (weighted count of messages not yet
+      popped and not yet appended, plus a per-thread rank that depends on whether the queue is empty) strictly decreases on
+      every step of every thread; so every execution from the initial state has at most Phi(initial) steps — no livelock *)
+Theorem c12_terminates : forall n totals k s',
+  (forall i, n <= i -> totals i = 0) -> run_of (init totals) k s' -> k <= Phi n (init totals).
+Proof.
+  intros n totals k s' Hz Hr.
+  assert (Hb : idle_beyond n (init totals)).
+  { intros i Hi. cbn. rewrite (Hz i Hi). reflexivity. }
+  pose proof (bounded_executions n k _ _ (inv_init totals) Hb Hr). lia.
+Qed.
+Print Assumptions c12_terminates.
 
 (* tie: the source's _send is the program these theorems are about *)
 Theorem c12_program_is_current : Gen_sendq.send_prog = SendQ.prog /\ Gen_sendq.sendlock_is_plain_lock = true.
